@@ -333,6 +333,26 @@ func stateVariants(c *chain.Chain, spec *common.Spec, s *chain.Step, fs *flat.St
 		return &g
 	}
 	if rng.Intn(3) == 0 {
+		// the fork record says the current version was adopted exactly in the previous / the current epoch (with some other
+		// version before): every object of the block whose epoch is at or after that epoch stays valid under the current
+		// version — independent of how the chain library signs
+		spe := uint64(spec.SLOTS_PER_EPOCH)
+		cur := fs.Slot / spe
+		for _, fe := range []uint64{cur, cur - 1} {
+			if fe > cur {
+				continue
+			}
+			g := clone()
+			g.ForkEpoch = fe
+			g.ForkPrevVersion = [4]byte{0xde, 0xad, 0xbe, byte(fe)}
+			lbl := "pre-state:fork-record-epoch=current"
+			if fe != cur {
+				lbl = "pre-state:fork-record-epoch=previous"
+			}
+			out = append(out, stateVariant{lbl, "valid", g, nil})
+		}
+	}
+	if rng.Intn(3) == 0 {
 		// the proposer has been slashed
 		g := clone()
 		p := int(s.Proposer)
